@@ -21,7 +21,8 @@ WORD = re.compile(r"[A-Za-z0-9_]")
 
 
 def tokens_of_definition(text: str) -> list[str]:
-    """Split into tokens at which trivia may be inserted: words, [..] groups (line-oriented: kept whole), punctuation, #define lines (kept whole)."""
+    """Split into tokens at which trivia may be inserted: words, punctuation (every '*', '[', ']' and ':' of a declarator is a token of its own; the
+    text between [ and ] stays whole), #define lines (kept whole)."""
     out = []
     for line in text.split("\n"):
         if line.lstrip().startswith("#define"):
@@ -36,12 +37,15 @@ def tokens_of_definition(text: str) -> list[str]:
                 j = i
                 while j < len(line) and WORD.match(line[j]):
                     j += 1
-                # an array suffix / bit width belongs to the declarator: name[..][..] and name : 3 stay on one line
-                k = j
-                while k < len(line) and line[k] == "[":
-                    k = line.index("]", k) + 1
-                out.append(("tok", line[i:k]))
-                i = k
+                out.append(("tok", line[i:j]))
+                i = j
+            elif c == "[":
+                k = line.index("]", i)
+                out.append(("tok", "["))
+                if line[i + 1:k].strip():
+                    out.append(("tok", line[i + 1:k].strip()))
+                out.append(("tok", "]"))
+                i = k + 1
             else:
                 out.append(("tok", c))
                 i += 1
@@ -78,9 +82,14 @@ def render(tokens, rng: random.Random) -> str:
         if t == "{" and pending_enum:
             depth_enum, pending_enum = True, False
         sep = trivia(rng, depth_enum) if prev is not None else rng.choice(["", " ", "\n", "/* lead */ "])
-        # ':' of a bit field and '*' of a pointer are part of the (line-oriented) declarator regex: keep them tight
-        if t == ":" or prev == ":" or (prev == "*" ) or t == "*":
-            sep = " "
+        # inside a declarator (around ':' of a bit field, '*' of a pointer, '[' ... ']' of an array) the definition stays on one line: blanks, tabs
+        # and block comments only
+        if t in (":", "*", "[", "]") or prev in (":", "*", "[", "]"):
+            sep = rng.choice(["", "", " ", "  ", "\t", " /* d */ "]) if prev is not None else ""
+            if prev == "[" or t == "]":
+                sep = rng.choice(["", " "])
+            if prev is not None and WORD.match(prev[-1]) and t == "*" and not sep:
+                sep = " "
         if prev is not None and WORD.match(prev[-1]) and WORD.match(t[0]) and not sep.strip(" \t") and not sep:
             sep = " "
         out += sep + t
@@ -148,7 +157,9 @@ def check(run: Run) -> None:
                 "typedef struct _s { uint8 a; uint16 b; } s_t, *sp_t; struct main { s_t s; sp_t q; uint8 t; };",
                 "typedef char *str_t; typedef str_t strs_t[2]; struct main { uint8 n; strs_t v; str_t w; };",
                 "typedef enum { A = 1, B } e_t; typedef e_t *ep_t; struct main { e_t e; ep_t p; uint8 x[2]; };",
-                "typedef uint16 word_t; typedef word_t *wp_t; typedef union { word_t w; uint8 b[2]; } u_t; struct main { wp_t p; u_t u; };"]
+                "typedef uint16 word_t; typedef word_t *wp_t; typedef union { word_t w; uint8 b[2]; } u_t; struct main { wp_t p; u_t u; };",
+                "enum E1 : unsigned int { E1_A = 1, E1_B };\nflag F1 : unsigned long long { F1_A = 1 };\nstruct main { E1 e; F1 f; unsigned short us; uint8 **pp; uint16 grid[2][3]; uint8 bf : 3; };",
+                "struct main { uint8 ***ppp; char *names[2]; uint32 m[2][2][1]; unsigned char uc[3]; };"]
     n_gen = 500 if thorough else 110
     for i in range(n_gen + 3 * len(TYPEDEFS)):
         if i < n_gen:
@@ -216,6 +227,27 @@ def check(run: Run) -> None:
                     failures += 1
                     run.report("C13/reorder", {"definition": text, "ops": [{"op": "reordered unrelated definitions", "variant": "\n".join(sw), "observed": f"{type(e).__name__}: {e}", "expected": "identical types"}]})
 
+    # ---- 2a. constants that do not refer to each other, in every order (a string constant is its text, whatever other constants are called) ----
+    import itertools as _it
+    CONST_SETS = [['#define B 5', '#define A "B"', '#define C 7'], ['#define LEN 4', '#define NAME "LEN"', '#define GREETING "hello world"'],
+                  ['#define X 1', "#define Y 'X'", '#define Z (2 + 3)'], ['#define P 3', '#define Q "P + 1"']]
+    for cset in CONST_SETS:
+        seen = {}
+        for perm in _it.permutations(cset):
+            n_oracle += 1
+            cs = cstruct()
+            try:
+                cs.load("\n".join(perm) + "\n")
+                seen[perm] = {k: v for k, v in cs.consts.items()}
+            except Exception as e:  # noqa: BLE001
+                seen[perm] = f"{type(e).__name__}: {e}"
+        vals = list(seen.values())
+        if any(v != vals[0] for v in vals):
+            failures += 1
+            other = next(p_ for p_, v in seen.items() if v != vals[0])
+            run.report("C13/constant-order", {"definition": "\n".join(cset), "ops": [{"op": "reordered unrelated #define lines", "variant": "\n".join(other),
+                       "observed": repr(seen[other])[:300], "expected": repr(vals[0])[:300]}]})
+
     # ---- 2b. sequences of load() calls with different options on one cstruct object ----
     for i in range(60 if thorough else 16):
         t1 = f"struct first{i} {{ uint8 a; uint32 b; uint16 c; }};"
@@ -256,6 +288,25 @@ def check(run: Run) -> None:
             alias_probs.append("re-declaring an alias for a different target accepted")
         except ValueError:
             pass
+    # built-in synonyms and aliases declared by name are entries that refer to another entry: re-declaring them is accepted for the same target only
+    cs.add_type("by_name", "uint16")
+    for nm, same, other in [("DWORD", "uint32", "uint64"), ("long", "int32", "int16"), ("uint32_t", "uint32", "uint8"), ("ULONG", "uint32", "int32"),
+                            ("WCHAR", "wchar", "char"), ("by_name", "uint16", "uint32"), ("T2", "uint32", "uint16")]:
+        n_oracle += 3
+        for first in (other, same):          # the different target first: the entry is still the reference it was declared as
+            c3 = cstruct()
+            c3.load("typedef uint32 T1; typedef T1 T2;")
+            c3.add_type("by_name", "uint16")
+            for target in ((first,) if first == other else (same, other)):
+                try:
+                    c3.load(f"typedef {target} {nm};")
+                    if target == other:
+                        alias_probs.append(f"re-declaring {nm} for a different target ({other}) accepted")
+                except ValueError as e:
+                    if target == same:
+                        alias_probs.append(f"re-declaring {nm} for the same target rejected: {e!r}")
+            if c3.resolve(nm) is not c3.resolve(same):
+                alias_probs.append(f"{nm} no longer resolves to {same}")
     try:
         cs.resolve("no_such_type")
         alias_probs.append("unknown alias resolved")
